@@ -81,7 +81,19 @@ func c09Faults(d *Decl, args []string, ref *RefResult) []fault {
 			choiceOpt = o
 		}
 	}
+	flagShort := ""
+	for _, o := range d.AllOpts() {
+		if o.Short != "" && o.Kind.IsFlag() && len(o.Chain) == 1 {
+			flagShort = o.Short
+			break
+		}
+	}
 	for i := 0; i <= len(args); i++ {
+		if flagShort != "" {
+			fs = append(fs, fault{"unknown letter first in a cluster", insertAt(args, i, "-Z"+flagShort)})
+			fs = append(fs, fault{"unknown letter in the middle of a cluster", insertAt(args, i, "-"+flagShort+"Z"+flagShort)})
+			fs = append(fs, fault{"help flag first in a cluster", insertAt(args, i, "-h"+flagShort)})
+		}
 		fs = append(fs, fault{"unknown option", insertAt(args, i, "--no-such-option")})
 		fs = append(fs, fault{"unknown short option", insertAt(args, i, "-Z")})
 		fs = append(fs, fault{"help long", insertAt(args, i, "--help")})
